@@ -319,6 +319,7 @@ def units(ctx):
 
 
 SPEC = Spec(
+    lean=['Folds.lean'],
     prop=PROP, level="proof",
     functions=[(TR, "add_iteration"), (TR, "Trace._filter_irrelevant_gpu_kernels"), (TR, "Trace.load_traces"), (TF, "CPUOperatorFilter.__call__"), (TF, "GPUKernelFilter.__call__")],
     units=units, bounded=[Bounded("load_vs_oracle", bounded)],
